@@ -124,7 +124,7 @@ impl Prop for C13 {
         500
     }
     fn cases(&self, t: Tier) -> usize {
-        t.pick(150_000, 4_000_000)
+        t.pick(600_000, 4_000_000)
     }
     fn generate(&self, t: &mut Tape) -> Case {
         let spelling = super::c02::take_spelling(t, 40);
